@@ -144,7 +144,8 @@ def fmtOffset (fixed : Bool) (fl : Flags) (w : Option Nat) (off : Int) (hmSep ms
       (if off < 0 then '-' else '+') :: padLeft padWidth '0' (natDigits hours.natAbs)
     else
       let neg : Bool := if fixed then decide (off < 0) else decide (hours < 0)
-      padLeft padWidth ' ' ((if neg then '-' else '+') :: natDigits hours.natAbs)
+      -- the sign is part of the blank-padded field (after the `fix:` commit; one column short before)
+      padLeft (if fixed then padWidth + 1 else padWidth) ' ' ((if neg then '-' else '+') :: natDigits hours.natAbs)
   head ++ (if hmSep then [':'] else []) ++ pad2 (offMinutes off) ++
     (if msSep then ':' :: pad2 (offSeconds off) else [])
 
